@@ -23,6 +23,14 @@ theorem stateSolved_eq (n m : Nat) (sg : Nat → Bytes) (ph : Bytes) (sgn : Nat 
     (some ([] : Bytes) :: (stateItems n m sg ph sgn).reverse).filterMap id = stateSolved n m sg ph sgn := by
   simp [stateItems_eq, stateSolved, List.filterMap_map, ← List.map_reverse]
 
+theorem stateSolved_map_some (n m : Nat) (sg : Nat → Bytes) (ph : Bytes) (sgn : Nat → Bool) :
+    (stateSolved n m sg ph sgn).map some = some [] :: (stateItems n m sg ph sgn).reverse := by
+  simp [stateSolved, stateItems_eq, List.map_reverse]
+
+theorem stateSigs_full (n m : Nat) (sg : Nat → Bytes) (ph : Bytes) (sgn : Nat → Bool) (h : card n sgn = m) :
+    stateSigs n m sg ph sgn = (signedList n sgn).map sg := by
+  unfold stateSigs; rw [h, Nat.sub_self]; rfl
+
 theorem stateSigs_length (n m : Nat) (sg : Nat → Bytes) (ph : Bytes) (sgn : Nat → Bool) (h : card n sgn ≤ m) :
     (stateSigs n m sg ph sgn).length = m := by
   simp [stateSigs, card] at *; omega
@@ -32,10 +40,11 @@ variable (chk : PChk) (w : Wrap) (m : Nat) (keys : List Bytes) (sg : Nat → Byt
 
 /-- sizes of what is pushed -/
 def SizesOk (keys : List Bytes) (sg : Nat → Bytes) (ph : Bytes) : Prop :=
-  (∀ k ∈ keys, 2 ≤ k.length ∧ k.length ≤ 75) ∧ (∀ i, 2 ≤ (sg i).length ∧ (sg i).length ≤ 75) ∧ 2 ≤ ph.length ∧ ph.length ≤ 75
+  (∀ k ∈ keys, 2 ≤ k.length ∧ k.length ≤ 75) ∧ (∀ i, i < keys.reverse.length → 2 ≤ (sg i).length ∧ (sg i).length ≤ 75) ∧
+    2 ≤ ph.length ∧ ph.length ≤ 75
 
-theorem stateSolved_items (hs : SizesOk keys sg ph) (n : Nat) :
-    (∀ d ∈ stateSolved n m sg ph sgn, d.length = 0 ∨ (2 ≤ d.length ∧ d.length ≤ 75)) := by
+theorem stateSolved_items (hs : SizesOk keys sg ph) :
+    (∀ d ∈ stateSolved keys.reverse.length m sg ph sgn, d.length = 0 ∨ (2 ≤ d.length ∧ d.length ≤ 75)) := by
   intro d hd
   unfold stateSolved stateSigs at hd
   rcases List.mem_cons.mp hd with h | h
@@ -43,7 +52,7 @@ theorem stateSolved_items (hs : SizesOk keys sg ph) (n : Nat) :
   · right
     rcases List.mem_append.mp (List.mem_reverse.mp h) with h | h
     · rw [(List.mem_replicate.mp h).2]; exact hs.2.2
-    · obtain ⟨i, _, rfl⟩ := List.mem_map.mp h; exact hs.2.1 i
+    · obtain ⟨i, hi, rfl⟩ := List.mem_map.mp h; exact hs.2.1 i (mem_signedList.mp hi).1
 
 /-- **`m` keys have signed ⇒ accepted**, whatever the wrapper -/
 theorem state_accept (ok : w.Ok (multisigScriptN m keys) flags)
@@ -59,15 +68,18 @@ theorem state_accept (ok : w.Ok (multisigScriptN m keys) flags)
       flags tx = none := by
   have hemb0 := embeds_signedList chk (scriptCodeFor ⟨multisigScriptN m keys, flags, w.sv, tx⟩ ⟨[], [], [], 0, 0⟩
         (stateSigs keys.reverse.length m sg ph sgn)) w.sv sg sgn keys.reverse hown
+  have hit := stateSolved_items m keys sg ph sgn hs
+  have hs1 := hs.1
+  clear hs
   generalize hnK : keys.reverse.length = n at *
   have hlen := stateSigs_length n m sg ph sgn (by omega)
-  rw [verifyScript_wrap_eq chk w _ _ flags tx ok (stateSolved_items m keys sg ph sgn hs _)
+  rw [verifyScript_wrap_eq chk w _ _ flags tx ok hit
     (by simp only [stateSolved, List.length_cons, List.length_reverse, hlen]; omega)]
   have hrev : (stateSolved n m sg ph sgn).reverse = stateSigs n m sg ph sgn ++ [[]] := by
     simp [stateSolved]
   have hsigs : stateSigs n m sg ph sgn = (signedList n sgn).map sg := by
     simp [stateSigs, hfull]
-  rw [hrev, evalScript_multisigN chk m keys _ flags tx w.sv hlen hm1 hmn hn hs.1]
+  rw [hrev, evalScript_multisigN chk m keys _ flags tx w.sv hlen hm1 hmn hn hs1]
   · exact w.verdict_true flags
   · apply multisigLoop_accepts chk flags w.sv _ keys.reverse
     · rw [hsigs] at hemb0 ⊢
@@ -87,15 +99,18 @@ theorem state_reject (ok : w.Ok (multisigScriptN m keys) flags)
     verifyScript chk (w.scriptSig (multisigScriptN m keys) (stateSolved keys.reverse.length m sg ph sgn))
       (w.spk (multisigScriptN m keys)) (w.wit (multisigScriptN m keys) (stateSolved keys.reverse.length m sg ph sgn))
       flags tx ≠ none := by
+  have hit := stateSolved_items m keys sg ph sgn hs
+  have hs1 := hs.1
+  clear hs
   generalize hnK : keys.reverse.length = n at *
   have hlen := stateSigs_length n m sg ph sgn (by omega)
-  rw [verifyScript_wrap_eq chk w _ _ flags tx ok (stateSolved_items m keys sg ph sgn hs _)
+  rw [verifyScript_wrap_eq chk w _ _ flags tx ok hit
     (by simp only [stateSolved, List.length_cons, List.length_reverse, hlen]; omega)]
   have hrev : (stateSolved n m sg ph sgn).reverse = stateSigs n m sg ph sgn ++ [[]] := by
     simp [stateSolved]
   rw [hrev]
   apply w.verdict_ne_none flags (rest := [])
-  apply evalScript_multisigN_bad chk m keys _ flags tx w.sv hlen hm1 hmn hn hs.1
+  apply evalScript_multisigN_bad chk m keys _ flags tx w.sv hlen hm1 hmn hn hs1
   refine ⟨ph, ?_, hph⟩
   unfold stateSigs
   apply List.mem_append_left
